@@ -63,6 +63,18 @@ Definition pull_version_information (len : Z) (bs : list Z) : Res (pval * list Z
   if (chosen =? 0) || existsb (fun v => v =? 0) avail then Err E_VALUE
   else Ok (PVer chosen avail, b2).
 
+(* the `if param_id in PARAMS: ... else: buf.pull_bytes(param_len)` dispatch *)
+Definition pull_param_value (id len : Z) (b2 : list Z) : Res (option pval * list Z) :=
+  match assoc id PARAMS with
+  | Some k =>
+      if k =? 0 then '(v, r) <- pull_uint_var b2 ;; Ok (Some (PInt v), r)
+      else if k =? 1 then '(v, r) <- pull_bytes len b2 ;; Ok (Some (PBytes v), r)
+      else if k =? 3 then '(v, r) <- pull_preferred_address b2 ;; Ok (Some v, r)
+      else if k =? 4 then '(v, r) <- pull_version_information len b2 ;; Ok (Some v, r)
+      else Ok (Some PTrue, b2)
+  | None => '(_, r) <- pull_bytes len b2 ;; Ok (None, r)
+  end.
+
 (* `while not buf.eof()`: every iteration pulls at least two bytes *)
 Fixpoint pull_tparams (fuel : nat) (acc : tparams) (bs : list Z) : Res tparams :=
   match bs with
@@ -73,14 +85,7 @@ Fixpoint pull_tparams (fuel : nat) (acc : tparams) (bs : list Z) : Res tparams :
     | S f =>
       '(id, b1) <- pull_uint_var bs ;;
       '(len, b2) <- pull_uint_var b1 ;;
-      '(v, b3) <- match assoc id PARAMS with
-                  | Some 0 => '(v, r) <- pull_uint_var b2 ;; Ok (Some (PInt v), r)
-                  | Some 1 => '(v, r) <- pull_bytes len b2 ;; Ok (Some (PBytes v), r)
-                  | Some 3 => '(v, r) <- pull_preferred_address b2 ;; Ok (Some v, r)
-                  | Some 4 => '(v, r) <- pull_version_information len b2 ;; Ok (Some v, r)
-                  | Some _ => Ok (Some PTrue, b2)
-                  | None => '(_, r) <- pull_bytes len b2 ;; Ok (None, r)
-                  end ;;
+      '(v, b3) <- pull_param_value id len b2 ;;
       if negb (Zlen b2 - Zlen b3 =? len) then Err E_VALUE   (* "Transport parameter length does not match" *)
       else pull_tparams f (match v with Some v => tp_set id v acc | None => acc end) b3
     end
